@@ -13,7 +13,7 @@ for m in sorted(glob.glob(os.path.join(root, '*', 'meta.json'))):
             caught = ['%s %s' % (t, toks[toks.index('quick') if 'quick' in toks else toks.index('thorough')]) for t in toks if t.startswith('C') and t[1:].isdigit()]
     rows.append((d['id'], d['breaks'], d['change'].replace('|', '\\|'), d['needs_to_manifest'].replace('|', '\\|'), ', '.join(caught) or 'MISSED', d.get('strengthened', '')))
 out = ['# Seeded changes', '',
-       'Each directory holds `patch.diff` (applies to /repo HEAD), the author\'s demonstration (`demo.c`), the author's `REPORT.md` where one was written, and `meta.json`.',
+       'Each directory holds `patch.diff` (applies to /repo HEAD), the author\'s demonstration (`demo.c`), the author\'s `REPORT.md` where one was written, and `meta.json`.',
        'Every change was written by an independent sub-agent that saw only the property text and a scratch worktree, and was then',
        'confirmed here in a scratch worktree (`tools/confirm_seed.sh`): applies, compiles, the repository\'s suite passes, the',
        'demonstration passes without and fails with the change. "caught by" lists the checks (tier) that exit 1 with a VIOLATION',
